@@ -179,7 +179,7 @@ bool TasgridWrapper::checkSane() const{
     // e.g., num_dimensions < 1 is problem when using make-grid command or make quadrature
     test.fail_if(num_dimensions < 1 and com.inside(makecoms, CArr<1>{command_makequadrature}),
                  "must specify number of dimensions (e.g., number of model inputs)");
-    test.fail_if(num_outputs < 1 and com.inside(makecoms),
+    test.fail_if(num_outputs < 0 and com.inside(makecoms),
                  "must specify number of outputs (could be zero)");
     test.fail_if(depth < 0 and com.inside(makecoms, CArr<3>{command_makequadrature, command_makeexoquad, command_update}),
                  "must specify depth (e.g., level or polynomial degree)");
